@@ -92,6 +92,15 @@ def _tree_unit(unit):
     return acc
 
 
+def _tower_unit(trees):
+    acc = Acc()
+    for t in trees:
+        acc.count("states")
+        for st in ("min", "full"):
+            roundtrip_case(to_odata(t, st), acc, "tower")
+    return acc
+
+
 def strings(maxlen, sigma=("a", "'", " ", "%")):
     for n in range(0, maxlen + 1):
         for tup in product(sigma, repeat=n):
@@ -104,7 +113,8 @@ def compound_leaves():
     # every literal kind
     out += [T.NULL, T.Int(0), T.Int(-7), T.Int("+3"), T.Int("007"), T.Flt("1.5"), T.Flt("-0.25"), T.Flt("1e3"), T.Flt("2.5E-3"),
             T.Bool(True), T.Bool(False), ("Boolean", "TRUE"), ("GUID", "123e4567-e89b-12d3-a456-426614174000"),
-            ("GUID", "123E4567-E89B-12D3-A456-426614174ABC"), ("Date", "2020-02-29"), ("Time", "10:30:00"), ("Time", "23:59:59.123456"),
+            ("GUID", "123E4567-E89B-12D3-A456-426614174ABC"), ("Date", "2020-02-29"), ("Time", "10:30:00"), ("Time", "23:59:59.123456"), ("Time", "14:00:00.0"), ("Time", "14:00:00.000"), ("Time", "14:00:00.120"),
+            ("DateTime", "2024-01-01T00:00:00.000Z"), ("DateTime", "2024-01-01T00:00:00.0"), ("DateTime", "2024-01-01T00:00:00.100+01:00"),
             ("DateTime", "2020-02-29T10:30:00Z"), ("DateTime", "2020-02-29T10:30:00+01:00"), ("DateTime", "2020-02-29T10:30"),
             ("DateTime", "2020-02-29T10:30:00.123456-23:59"), ("Duration", "P1D"), ("Duration", "-P1Y2M3DT4H5M6.5S"), ("Duration", "PT0S"),
             ("Geography", "POINT(1 2)"), ("Geography", "SRID=4326;POINT(1 2)"), ("Geography", ""),
@@ -159,6 +169,9 @@ def run(ctx):
     units = [(n, si, styles) for n in range(1, kmax + 1) for si in range(len(T.shapes(n)))]
     ctx.pmap(_tree_unit, units)
     ctx.layer("trees", max_operator_nodes=kmax, styles=list(styles), exhaustive=True)
+    tw = list(T.op_towers((5, 8) if ctx.quick else (5, 8, 12)))
+    ctx.pmap(_tower_unit, [tw[i::32] for i in range(32)])
+    ctx.layer("towers", trees=len(tw), exhaustive=True, note="every ordered pair of operators alternated on the left / right spine")
     leaves = compound_leaves()
     ctx.pmap(_leaf_unit, [leaves[i::16] for i in range(16)])
     ctx.layer("compound_leaves", leaves=len(leaves), contexts=8, exhaustive=True)
